@@ -14,8 +14,8 @@ CONFIG = dict(
           "MinMaxPheromoneUpdate alone on prepared populations (tours, truncated / repeated / rotated routes, equal "
           "objective values), rho in {0,0.1,0.9,1} + random, bounds incl. min = 0 and min ~ max, 0..8 ants. (3) chains of "
           "assembled generation -> PopulationEvaluator -> update steps where every reached matrix is the next input. "
-          "(4) 24 long runs (200 quick / 5000 thorough updates) of the shipped templates ant_system and max_min_ant_system "
-          "over 3 parameter points x 4 TSP instances under the step observer: every step is checked in-process (count, "
+          "(4) 32 long runs (200 quick / 5000 thorough updates) of the shipped templates ant_system and max_min_ant_system "
+          "over the 4 parameter points of the shared template grid (incl. the degenerate-valid one) x 4 TSP instances under the step observer: every step is checked in-process (count, "
           "permutation from city 0, finite, non-negative, within bounds), sampled steps (the first 60/200 and every 5th/20th, "
           "with the matrix before and after and the parameters read back from the built configuration) are replayed by the model. A separate malformed stream (zero / negative / "
           "NaN / infinite distances or pheromones, rho outside [0,1], min >= max, unevaluated or out-of-range individuals) only "
@@ -45,8 +45,8 @@ CONFIG.update(
                 "within [min, max] whatever the old matrix was. The model is tied to /repo by running the real components alone, "
                 "assembled, and inside long runs of both templates, and diffing against the compiled model (K); the property's "
                 "executable clauses are evaluated on the implementation's outputs (O)."),
-    level_note=("Known finding: MinMaxPheromoneUpdate panics for num_ants = 0 (mmas_no_ants_panics / _violates); the max-min theorems "
-                "are stated in _partial form (at least one sampled individual). Generation loops run in a worker process (address "
+    level_note=("The max-min theorems are total (any number of sampled individuals incl. num_ants = 0: evaporate + clamp, after fix "
+                "444b092 in /repo). Generation loops run in a worker process (address "
                 "space limited, killed and retried once before a case counts as `timeout`). "
                 "Trusted: Lean kernel; harness + driver parsing/printing. Modelled, not verified: rounding (theorems are exact "
                 "arithmetic; the tie compares floats with relative tolerance 1e-9), powf and rand's weighted sampling (any index of "
